@@ -150,10 +150,6 @@ pub open spec fn resp_len(cmd: u8) -> int {
 }
 pub open spec fn resp_len_claimed(cmd: u8) -> bool { cmd != 2 && cmd != 8 && cmd != 9 }
 
-/// KNOWN FINDING D9 (recorded, C10): input classes on which the decoder's length tables panic.
-pub open spec fn req_cmd_known(c: u8) -> bool { c <= 8 }
-pub open spec fn resp_cmd_known(c: u8) -> bool { c <= 6 || c == 8 || c == 9 }
-
 // =====================================================================================
 // reference decoder (C09), written from the property statement over raw bytes
 // =====================================================================================
@@ -194,14 +190,11 @@ pub open spec fn payload_start(p: Seq<u8>) -> int {
 pub open spec fn c09_claimed(p: Seq<u8>) -> bool {
     !(hdr_ok(p) && is_ctrl(p) && p.len() >= 12 && !is_req(p[9]) && !resp_len_claimed(p[10]))
 }
-/// KNOWN FINDING D9 (recorded, C10): inputs on which decode_packet panics today
-///   D9a control request with command code above 0x08  (length table: unimplemented!())
-///   D9b Success control response with command 0x07 or above 0x09 (length table: unimplemented!())
-///   D9c control response with completion code above 0x05 (CompletionCode::from: unreachable!())
+/// KNOWN FINDING D9c (recorded, C10): inputs on which decode_packet panics today - a control response whose
+/// completion code is above 0x05 (CompletionCode::from: unreachable!(); the enum has no variant for such a code).
+/// (D9a/D9b - the length tables' unimplemented!() for commands without a fixed length - are fixed.)
 pub open spec fn decode_known_panic(p: Seq<u8>) -> bool {
-    hdr_ok(p) && is_ctrl(p) && p.len() >= 12 && (
-        (is_req(p[9]) && !req_cmd_known(p[10]))
-        || (!is_req(p[9]) && p.len() >= 13 && (p[11] > 5 || (p[11] == 0 && !resp_cmd_known(p[10])))))
+    hdr_ok(p) && is_ctrl(p) && p.len() >= 13 && !is_req(p[9]) && p[11] > 5
 }
 
 /// exact error of the library's decoder, in its order of checks (used only to state C11 "the same error
@@ -225,17 +218,20 @@ pub open spec fn is_assigning(p: Seq<u8>) -> bool {
 }
 /// C14: the next selector stored (and returned) for selector i when n sets are configured
 pub open spec fn next_selector_byte(i: u8, n: int) -> u8 { if i as int + 1 == n { 0xFFu8 } else { (i + 1) as u8 } }
-/// accepted control request: the only inputs that are answered (C11)
-pub open spec fn is_answerable(p: Seq<u8>) -> bool { decode_accepts(p) && is_ctrl(p) && is_req(p[9]) }
-/// KNOWN FINDING D10 (recorded, C10): accepted control requests on which process_packet panics today
-///   D10a command 0x00 (unreachable!()), 0x07, 0x08 (unimplemented!())      [0x09.. is D9a]
-///   D10b Set Endpoint ID with operation Reset (2: unimplemented!()) or an operation byte above 3 (unreachable!())
-///   D10c Get Vendor Defined Message Support with a selector >= the number of configured sets (index / +1 overflow)
-pub open spec fn process_known_panic(p: Seq<u8>, n_vendor: int) -> bool {
-    is_answerable(p) && (
-        p[10] == 0 || p[10] == 7 || p[10] == 8
-        || (p[10] == 1 && !(p[11] == 0 || p[11] == 1 || p[11] == 3))
-        || (p[10] == 6 && p[11] as int >= n_vendor))
+/// accepted control request: the only inputs that may be answered (C11)
+pub open spec fn is_ctrl_request(p: Seq<u8>) -> bool { decode_accepts(p) && is_ctrl(p) && is_req(p[9]) }
+/// the commands this endpoint answers (Set/Get Endpoint ID, Get Endpoint UUID, Get MCTP Version Support, Get Message
+/// Type Support, Get Vendor Defined Message Support); every other accepted control request is handed to the caller
+/// without a response (fix of D10a)
+pub open spec fn cmd_answered(c: u8) -> bool { 1 <= c <= 6 }
+/// the accepted control requests that are answered
+pub open spec fn is_answerable(p: Seq<u8>) -> bool { is_ctrl_request(p) && cmd_answered(p[10]) }
+/// completion code of the answer (C12/C13/C14): ErrorInvalidData (2) for a Set Endpoint ID operation other than
+/// Set/Force (fix of D10b) and for a vendor-set selector at or beyond the n configured sets (fix of D10c), else Success
+pub open spec fn answer_completion(p: Seq<u8>, n_vendor: int) -> u8 {
+    if (p[10] == 1 && p[11] != 0 && p[11] != 1) || (p[10] == 6 && p[11] as int >= n_vendor) { 2u8 } else { 0u8 }
 }
+/// C14: the selector cell is written exactly when an in-range Get Vendor Defined Message Support request is answered
+pub open spec fn is_selecting(p: Seq<u8>, n_vendor: int) -> bool { is_answerable(p) && p[10] == 6 && (p[11] as int) < n_vendor }
 
 } // verus!
